@@ -73,10 +73,14 @@ FAMILIES = {
 SIM = {"quick": (400, 9), "thorough": (6000, 9)}     # -simulate: behaviours, glyphs
 
 
+SCALES = {"quick": "Scales864", "thorough": "Scales2864"}     # in-model ScaleInvariant
+_TIER = ["quick"]
+
+
 def consts(fam, dev):
     params, moves, maxitems, trs, wheres, firsts, _ = fam
     return {"Params": "<- " + params, "Moves": "<- " + moves, "MaxItems": maxitems, "Trs": "<- " + trs,
-            "Wheres": "<- " + wheres, "Firsts": "<- " + firsts, "PG": "<- PG512", "G": 400, "Scales": "<- Scales2864",
+            "Wheres": "<- " + wheres, "Firsts": "<- " + firsts, "PG": "<- PG512", "G": 400, "Scales": "<- " + SCALES[_TIER[0]],
             "Dev": tla_set(dev) if dev else "<- NoDev"}
 
 
@@ -108,6 +112,7 @@ def tlc_direction_a(ck, invariants, dev, extra_jobs=()):
     extra_jobs: callables (other TLC runs: trace validation, as-coded design) run in the same thread pool; their
     results are returned by extra_results()."""
     fams = FAMILIES[ck.tier]
+    _TIER[0] = ck.tier
     jobs = []
     nw = max(2, (os.cpu_count() or 4) // 3)
     with ThreadPoolExecutor(max_workers=5 if ck.tier == "quick" else 7) as ex:
